@@ -166,7 +166,7 @@ def main():
     eof = {n for n, c in conns.items() if c.eof}
     for c in conns.values():
         c.close()
-    bad = bool(eval(w['bad_if'], {'R': R, 'panic': panic, 'eof': eof, 'any': any, 'all': all, 'len': len}))
+    bad = bool(eval(w['bad_if'], {'R': R, 'panic': panic, 'eof': eof, 'any': any, 'all': all, 'len': len, 'sum': sum}))
     print('\n'.join(transcript))
     if panic:
         print('--- server panic:')
